@@ -14,10 +14,11 @@ import (
 
 type Profile struct {
 	Name                                                                  string
-	WAuthorize, WRedeem, WRefresh, WRevoke, WIntrospect, WAdvance, WSetClient, WPassword, WClientCreds, WIntrospectEP int
+	WAuthorize, WRedeem, WRefresh, WRevoke, WIntrospect, WAdvance, WSetClient, WPassword, WClientCreds, WIntrospectEP, WPush, WAuthorizePAR, WDeviceAuth, WDecide, WDevicePoll int
 	PKCE                                                                  int // percent of authorizations carrying PKCE parameters
 	Bad                                                                   int // percent of adversarial variants (wrong client, tamper, ...)
 	ShortLives                                                            int // percent of histories with second-scale lifetimes
+	ParEnforce                                                            int // percent of histories with enforced PAR
 	MinOps, MaxOps                                                        int
 	PkceFlags                                                             bool // randomise enforcement flags
 	Smuggle                                                               int
@@ -33,6 +34,7 @@ type gTok struct {
 	used     bool
 	issuedAt int64
 	scopes   []string // requested scopes of the grant
+	aud      []string
 }
 
 type gen struct {
@@ -99,10 +101,18 @@ func newGen(r *RNG, p *Profile) *gen {
 		c.PkcePlain = true
 	}
 	c.IntrospectRT = !r.Chance(15)
+	c.LifeDev, c.ParLife = 600000, 300000
+	if c.LifeCode < 10000 {
+		c.LifeDev, c.ParLife = 3000+int64(r.Intn(4))*250, 2000+int64(r.Intn(3))*500
+	}
+	c.ParEnforced = r.Chance(p.ParEnforce)
 	n := 2 + r.Intn(3)
 	for i := 0; i < n; i++ {
 		cl := HClient{Public: r.Chance(30)}
-		cl.Grants = []string{"authorization_code", "refresh_token", "password", "client_credentials"}
+		cl.Grants = []string{"authorization_code", "refresh_token", "password", "client_credentials", "urn:ietf:params:oauth:grant-type:device_code"}
+		if r.Chance(10) {
+			cl.Grants = []string{"authorization_code", "urn:ietf:params:oauth:grant-type:device_code"}
+		}
 		if r.Chance(15) {
 			cl.Grants = []string{"authorization_code", "refresh_token"}
 		}
@@ -162,7 +172,7 @@ func (g *gen) auth(owner int) int {
 
 func (g *gen) next() HOp {
 	p := g.p
-	total := p.WAuthorize + p.WRedeem + p.WRefresh + p.WRevoke + p.WIntrospect + p.WAdvance + p.WSetClient + p.WPassword + p.WClientCreds + p.WIntrospectEP
+	total := p.WAuthorize + p.WRedeem + p.WRefresh + p.WRevoke + p.WIntrospect + p.WAdvance + p.WSetClient + p.WPassword + p.WClientCreds + p.WIntrospectEP + p.WPush + p.WAuthorizePAR + p.WDeviceAuth + p.WDecide + p.WDevicePoll
 	x := g.r.Intn(total)
 	pick := func(w int) bool {
 		if x < w {
@@ -385,6 +395,119 @@ func (g *gen) next() HOp {
 			op.Bearer = &b
 		}
 		return op
+	case pick(p.WPush):
+		op := HOp{Kind: "push", Subject: ""}
+		c := r.Intn(len(g.h.Clients))
+		op.Auth = g.auth(c)
+		op.BodyClient = -1
+		switch r.Intn(10) {
+		case 0, 1:
+			op.BodyClient = c
+		case 2, 3:
+			op.BodyClient = r.Intn(len(g.h.Clients)) // possibly another client's id
+		}
+		if op.Auth >= 0 && g.h.Clients[op.Auth].Public && op.BodyClient >= 0 {
+			op.BodyClient = op.Auth // a public client is identified by the body's client_id
+		}
+		owner := c
+		if op.Auth >= 0 {
+			owner = op.Auth
+		}
+		if op.BodyClient >= 0 {
+			owner = op.BodyClient
+		}
+		op.Client = owner
+		op.Scopes = g.subset(scopePool, 45)
+		if r.Chance(6) {
+			op.Scopes = append(op.Scopes, "admin")
+		}
+		op.Redirect = clientRedirect(owner)
+		if r.Chance(25) {
+			op.Aud = g.subset(audPool, 40)
+		}
+		if r.Chance(p.PKCE + 20) {
+			v := g.verifierFor(0)
+			if r.Bool() {
+				op.Challenge, op.Method = s256(v), "S256"
+			} else {
+				op.Challenge, op.Method = v, "plain"
+			}
+			op.Verifier = v
+		}
+		op.HasRequestURI = r.Chance(4)
+		return op
+	case pick(p.WAuthorizePAR):
+		i := g.pickTok("par", func(t *gTok) bool { return !t.used || r.Chance(25) })
+		if r.Chance(6) {
+			i = -1
+		}
+		op := HOp{Kind: "authorize_par", Tok: HTok{Ref: i}, Subject: fmt.Sprintf("user-%d", r.Intn(3))}
+		if i >= 0 {
+			t := &g.toks[i]
+			op.Client = t.client
+			if r.Chance(p.Bad) {
+				op.Client = r.Intn(len(g.h.Clients))
+			}
+			op.Granted = append([]string{}, t.scopes...)
+			if r.Chance(25) && len(op.Granted) > 0 {
+				op.Granted = op.Granted[:len(op.Granted)-1]
+			}
+			if r.Chance(30) { // conflicting query parameters
+				op.Redirect = "https://evil.example/cb"
+				op.Scopes = []string{"admin", "photos"}
+			}
+			if r.Chance(25) {
+				v := g.verifierFor(0)
+				op.Challenge, op.Method = s256(v), "S256"
+				op.Verifier = v
+			}
+		} else {
+			op.Client = r.Intn(len(g.h.Clients))
+		}
+		return op
+	case pick(p.WDeviceAuth):
+		c := r.Intn(len(g.h.Clients))
+		op := HOp{Kind: "device_auth", Auth: g.auth(c), BodyClient: c}
+		if op.Auth >= 0 {
+			op.BodyClient = op.Auth
+		}
+		if r.Chance(p.Bad) && op.Auth >= 0 && !g.h.Clients[op.Auth].Public {
+			op.BodyClient = r.Intn(len(g.h.Clients))
+		}
+		op.Scopes = g.subset(scopePool, 45)
+		if r.Chance(6) {
+			op.Scopes = append(op.Scopes, "admin")
+		}
+		if r.Chance(25) {
+			op.Aud = g.subset(audPool, 40)
+		}
+		return op
+	case pick(p.WDecide):
+		i := g.pickTok("device", nil)
+		op := HOp{Kind: "decide", Tok: HTok{Ref: i}, Accept: !r.Chance(25), Subject: fmt.Sprintf("user-%d", r.Intn(3))}
+		if i >= 0 {
+			op.Granted = append([]string{}, g.toks[i].scopes...)
+			if r.Chance(25) && len(op.Granted) > 0 {
+				op.Granted = op.Granted[:len(op.Granted)-1]
+			}
+			op.GAud = append([]string{}, g.toks[i].aud...)
+		}
+		return op
+	case pick(p.WDevicePoll):
+		i := g.pickTok("device", func(t *gTok) bool { return !t.used || r.Chance(35) })
+		if i < 0 {
+			i = g.pickTok("device", nil)
+		}
+		op := HOp{Kind: "device_poll", Tok: HTok{Ref: i, Tamper: r.Chance(p.Bad / 3)}}
+		owner := 0
+		if i >= 0 {
+			owner = g.toks[i].client
+		}
+		op.Auth = g.auth(owner)
+		if r.Chance(p.Bad / 4) {
+			op.Tok.Ref = -1
+		}
+		return op
 	case pick(p.WAdvance):
 		op := HOp{Kind: "advance"}
 		c := &g.h.Cfg
@@ -395,7 +518,7 @@ func (g *gen) next() HOp {
 			// land near an expiry of some credential
 			if len(g.toks) > 0 {
 				t := Pick(r, g.toks)
-				life := map[string]int64{"code": c.LifeCode, "access": c.LifeAT, "refresh": c.LifeRT}[t.kind]
+				life := map[string]int64{"code": c.LifeCode, "access": c.LifeAT, "refresh": c.LifeRT, "device": c.LifeDev, "user": c.LifeDev, "par": c.ParLife}[t.kind]
 				if life > 0 {
 					target := t.issuedAt + life + Pick(r, []int64{-1000, -501, -500, -499, -1, 0, 1, 499, 500, 501, 999, 1000, 1001})
 					if target > g.now {
@@ -448,7 +571,7 @@ func genHistory(t *testing.T, r *RNG, p *Profile) (*HHistory, []HObs) {
 		for k := 0; k < n; k++ {
 			op := g.next()
 			verifier := op.Verifier
-			if op.Kind == "authorize" {
+			if op.Kind == "authorize" || op.Kind == "push" || op.Kind == "authorize_par" {
 				op.Verifier = ""
 			}
 			o := w.exec(&op)
@@ -460,6 +583,35 @@ func genHistory(t *testing.T, r *RNG, p *Profile) (*HHistory, []HObs) {
 			case "authorize":
 				if len(o.Minted) == 1 {
 					g.toks = append(g.toks, gTok{kind: "code", client: op.Client, family: len(g.toks), redirect: op.Redirect, verifier: verifier, method: op.Method, issuedAt: g.now, scopes: op.Scopes})
+				}
+			case "push":
+				if len(o.Minted) == 1 {
+					g.toks = append(g.toks, gTok{kind: "par", client: op.Client, family: len(g.toks), redirect: op.Redirect, verifier: verifier, method: op.Method, issuedAt: g.now, scopes: op.Scopes})
+				}
+			case "authorize_par":
+				if op.Tok.Ref >= 0 && op.Tok.Ref < len(g.toks) {
+					g.toks[op.Tok.Ref].used = true
+					if len(o.Minted) == 1 {
+						src := g.toks[op.Tok.Ref]
+						v := src.verifier
+						if v == "" {
+							v = verifier
+						}
+						g.toks = append(g.toks, gTok{kind: "code", client: src.client, family: len(g.toks), redirect: src.redirect, verifier: v, issuedAt: g.now, scopes: src.scopes})
+					}
+				}
+			case "device_auth":
+				if len(o.Minted) == 2 {
+					g.toks = append(g.toks, gTok{kind: "device", client: op.BodyClient, family: len(g.toks), issuedAt: g.now, scopes: op.Scopes, aud: op.Aud},
+						gTok{kind: "user", client: op.BodyClient, family: len(g.toks), issuedAt: g.now})
+				}
+			case "device_poll":
+				if o.Err == "" && op.Tok.Ref >= 0 {
+					g.toks[op.Tok.Ref].used = true
+					src := g.toks[op.Tok.Ref]
+					for _, m := range o.Minted {
+						g.toks = append(g.toks, gTok{kind: m, client: src.client, family: src.family, issuedAt: g.now, scopes: src.scopes})
+					}
 				}
 			case "password", "clientcreds":
 				if o.Err == "" {
